@@ -413,7 +413,7 @@ def c03(ctx):
         cases += wire_cases(ctx, "mut", [7], 1, [1])
     else:
         cases += wire_cases(ctx, "mut", [6, 7, 34, 35, 36], 0, range(1, 11))
-        cases += wire_cases(ctx, "mut", [7, 36], 0, [13, 14, 18, 19])
+        cases += wire_cases(ctx, "mut", [7, 36], 0, [13, 14, 18])           # (base 19, a 65535-byte payload, makes trace lines that TLC's JSON reader refuses; C02 covers that size)
         cases += wire_cases(ctx, "mut", [7], 1, [1, 4, 5, 6, 8])
         cases += wire_cases(ctx, "mut", [7], 0, [1], mutdepth=2)           # pairs of edits: about 0.6 M cases per base (four bases exhausted the sandbox's memory)
     seen, out = set(), []
